@@ -1743,7 +1743,7 @@ def rel2abs_fn(
 ) -> str:
     # https://www.mediawiki.org/wiki/Help:Extension:ParserFunctions##rel2abs
     # https://github.com/wikimedia/mediawiki-extensions-ParserFunctions/blob/ea4d4d94ee0c55b6039e05650ccc322e106ae06b/includes/ParserFunctions.php#L319
-    original_path_str = args[0].strip()
+    original_path_str = args[0].strip() if args else ""
     path = Path(original_path_str.removeprefix("/"))
     base_path = Path("/" + (wtp.title or ""))
     if len(args) > 1:
